@@ -149,6 +149,34 @@ func RunFaultCase(rt *rapid.T, env *Env, prop *SimProp, faults func(w *World) []
 			judge(vw, vw.SymScript)
 		}
 	}
+	if prop.ID != "C11" {
+		return
+	}
+	// race variants: the connection closes at the same moment as a service answer
+	// is delivered (released together from separate goroutines), so that the
+	// answer's hand-over can land between the queued disposal and its execution
+	for _, fault := range fs {
+		for k := 0; k < len(base); k++ {
+			if base[k].K != "ans" || len(fault) != 1 {
+				continue
+			}
+			script := append([]Op(nil), base[:k]...)
+			script = append(script, Op{K: "par", Par: []Op{fault[0], base[k]}})
+			script = append(script, base[k+1:]...)
+			vw, err := NewWorld(cfg)
+			if err != nil {
+				env.Inconclusive("NewWorld: " + err.Error())
+				return
+			}
+			vw.Monitors = prop.Monitors()
+			vw.Settle()
+			for _, op := range script {
+				vw.Exec(op)
+			}
+			env.Stats.Classes["close_races_answer"]++
+			judge(vw, vw.SymScript)
+		}
+	}
 }
 
 func init() {
